@@ -310,6 +310,7 @@ func runC07(c *Ctx) {
 	ruleDotStructure(c) // error exits keep the automaton state: a reader that has failed does not report end-of-file next time
 	rulePipeClose(c)
 	ruleNoPositiveAfterShortCopy(c)
+	ruleWriteDeadlineOwner(c)     // a client that stalls in mid-message times out: no reply disarms (or re-arms) the read deadline
 	ruleNoCommandWhileDataOpen(c) // the client never completes a body it failed to copy: textproto ends an open dot-writer on the next command
 	// a chunk the server threw away for exceeding the size limit ends the transfer: otherwise a later "BDAT 0 LAST"
 	// closes the pipe cleanly and the backend reads a message with a chunk missing up to a clean end-of-file
